@@ -191,6 +191,7 @@ type ECEncoding struct {
 	Public     bool // embed [1] publicKey
 	Compressed bool // the embedded public key uses the compressed point form (02/03 || X)
 	ScalarLen  int  // 0 = fixed width of the curve order; otherwise exact length (must fit)
+	V2         bool // RFC 5958 OneAsymmetricKey: version v2(1) and the public key as trailing [1] IMPLICIT BIT STRING
 }
 
 // BuildECPKCS8 encodes an EC private key as PKCS#8 with the chosen layout,
@@ -222,6 +223,11 @@ func BuildECPKCS8(ci *CurveInfo, d *big.Int, enc ECEncoding) []byte {
 	if enc.OuterOID {
 		algParts = append(algParts, refder.MustOID(ci.OID))
 	}
+	if enc.V2 {
+		x, y := ci.Curve.ScalarBaseMult(d.Bytes())
+		return refder.Seq(refder.EncInt64(1), refder.Seq(algParts...), refder.EncOctets(ecpk),
+			refder.Enc(refder.ClassContext, 1, false, refder.BitStringContent(MarshalPoint(ci, x, y), 0)))
+	}
 	return refder.Seq(refder.EncInt64(0), refder.Seq(algParts...), refder.EncOctets(ecpk))
 }
 
@@ -245,6 +251,15 @@ func BuildRSAPKCS8(k *rsa.PrivateKey) []byte {
 	body := refder.Seq(refder.EncInt64(0), refder.EncInt(k.N), refder.EncInt64(int64(k.E)), refder.EncInt(k.D),
 		refder.EncInt(p), refder.EncInt(q), refder.EncInt(dp), refder.EncInt(dq), refder.EncInt(qinv))
 	return refder.Seq(refder.EncInt64(0), refder.Seq(refder.MustOID(OIDRSAEncryption), refder.EncNull()), refder.EncOctets(body))
+}
+
+// BuildRSAPKCS8V2 is the same key as an RFC 5958 OneAsymmetricKey: version v2(1) and the
+// RSAPublicKey as trailing [1] IMPLICIT BIT STRING (what BouncyCastle and RustCrypto write).
+func BuildRSAPKCS8V2(k *rsa.PrivateKey) []byte {
+	top, _ := refder.ReadAll(BuildRSAPKCS8(k))
+	m, _ := refder.Children(top.Content)
+	pub := refder.Seq(refder.EncInt(k.N), refder.EncInt64(int64(k.E)))
+	return refder.Seq(refder.EncInt64(1), m[1].Full, m[2].Full, refder.Enc(refder.ClassContext, 1, false, refder.BitStringContent(pub, 0)))
 }
 
 // CSR is a decoded PKCS#10 request (only what the properties need).
